@@ -182,6 +182,8 @@ def gen_instance(rng, profile=None):
     if depot_mode != "absent":
         depots = []
         nd = rng.choice([1, 2, 2, 3])
+        if depot_mode == "empty":
+            nd = 0                 # boundary profile: `depots` given but empty — only the overflow depot exists
         for k in range(nd):
             if depot_mode == "ample":
                 cap = rng.choice([20, 50])
@@ -270,6 +272,7 @@ BOUNDARY_PROFILES = [
     {"tie_all": True}, {"tie_all": True, "slots": "some", "zero_shunting": True}, {"ndeps": 1, "max_dsegs": 1},
     {"ndeps": 1, "max_dsegs": 1, "slots": "some", "ntypes": 2}, {"ndeps": 1, "max_dsegs": 1, "slots": "zero_tracks"},
     {"nlocs": 1, "ndeps": 1, "max_dsegs": 1, "depots": "zero"}, {"tie_all": True, "ntypes": 3, "depots": "scarce"},
+    {"depots": "empty"}, {"depots": "empty", "slots": "some", "ntypes": 2},
 ]
 
 
